@@ -10,7 +10,7 @@ import corr  # noqa
 import kickcommon as K  # noqa
 from lib import f32, f2h, h2f  # noqa
 
-MODULES = ["InovesaModel.Props.C15", "InovesaModel.Props.Tie"]
+MODULES = ["InovesaModel.Props.C15", "InovesaModel.Props.TieTrack", "InovesaModel.Props.TieKick"]
 LEVEL = "proof"
 
 
